@@ -18,6 +18,11 @@ var X int
 
 func main() {
 	which := os.Args[1]
+	if len(which) > 4 && (which[:4] == "sort" || which[:5] == "subst" || which[:4] == "load" && which != "loadonly" && which != "load" || which[:4] == "then") {
+		sortProbe(which)
+		fmt.Println("done", which)
+		return
+	}
 	inputs := props.CorpusScns()
 	s := inputs["version"]
 	root := props.Scratch() + "/v"
